@@ -29,6 +29,23 @@ def purePow : List String → Option String
       | some d => pure s!"ok {d}"
   | _ => none
 
+def showHeights (l : List Nat) : String :=
+  if l.isEmpty then "none" else ",".intercalate (l.map toString)
+
+def pageLine (H i c : String) : Option String := do
+  let H ← H.toNat?
+  let i ← i.toNat?
+  let c ← c.toNat?
+  if c > Gen.RpcMaxPageSize then pure "err"
+  else pure (showHeights (Rpc.pageHeights H i c) ++ s!" count={H}")
+
+def heightLine (H h c : String) : Option String := do
+  let H ← H.toNat?
+  let h ← h.toNat?
+  let c ← c.toNat?
+  if h = 0 ∨ c > Gen.RpcMaxCountSize then pure "err"
+  else pure (showHeights (Rpc.byHeight H h c) ++ s!" count={H}")
+
 def pureRpc : List String → Option String
   | ["get-range", i, c, n] => do
       let i ← i.toNat?
@@ -36,6 +53,11 @@ def pureRpc : List String → Option String
       let n ← n.toNat?
       let (s, e) := Rpc.getRange i c n
       pure s!"{s} {e}"
+  | ["rpcserver-survived"] => some "ok"
+  | ["rpc-mom-page", H, i, c] => pageLine H i c
+  | ["rpc-acc-page", H, i, c] => pageLine H i c
+  | ["rpc-mom-height", H, h, c] => heightLine H h c
+  | ["rpc-acc-height", H, h, c] => heightLine H h c
   | _ => none
 
 end ZV.Driver
